@@ -862,6 +862,14 @@ class Machine:
             if c: return self.mod.get(c[0]), None
         n = self.mod.lookup(key)
         if n: return self.mod.get(n), None
+        if len(parts) > 1:
+            # inherent impl generated by a macro (`impl $name { fn new(..) }`): one item name per module, pick by the type it builds
+            for (t0, tr0, me0), names in idx.items():
+                if tr0 is None and me0 == parts[-1] and t0.startswith("$"):
+                    mods = [nm for nm in names if len(parts) < 3 or nm.split("::<impl", 1)[0].split("::")[-1] == parts[-3]] or names
+                    for nm in mods:
+                        f = self.mod.get_for_ret(nm, parts[-2])
+                        if f is not None and f.ret_ty and parts[-2] in str(f.ret_ty): return f, None
         return None, None
 
     # ------------------------------------------------------------ execution
